@@ -6,6 +6,8 @@ use crate::engine::{Ctx, Outcome, PartReport};
 use serde::Serialize;
 use serde_json::Value;
 
+pub mod edit;
+
 pub struct Info {
     pub level: &'static str,
     pub assumptions: Vec<&'static str>,
@@ -48,6 +50,7 @@ properties! {
     "C07" => c07,
     "C08" => c08,
     "C09" => c09,
+    "C10" => c10,
     "C11" => c11,
     "C12" => c12,
     "C13" => c13,
@@ -62,6 +65,7 @@ pub fn probes(ctx: &Ctx, id: &str) -> Vec<Probe> {
     match id {
         "C03" => c03::probes(ctx),
         "C09" => c09::probes(ctx),
+        "C10" => c10::probes(ctx),
         "C12" => c12::probes(ctx),
         "C15" => c15::probes(ctx),
         "C18" => c18::probes(ctx),
